@@ -70,7 +70,9 @@ def diff_task(task):
     a = run_world(world, {})
     c = run_world(clean, {})
     out = {"cmd": cmd, "problems": []}
-    if a.get("exc") and not c.get("exc"):
+    # (DAYS beyond timedelta's range aborts trash-empty at the first dated entry it meets, whoever wrote that entry:
+    #  an added neighbour that carries a date can be that first one - not an effect of malformedness)
+    if a.get("exc") and not c.get("exc") and a["exc"] != "OverflowError":
         out["problems"].append("traceback with malformed neighbours: %s" % a["exc"])
     if cmd in ("list", "restore"):
         if good_lines(world, a["stdout"], cmd) != good_lines(world, c["stdout"], cmd):
